@@ -782,6 +782,8 @@ impl<Meta: ObjectMeta> AppendArchive<Meta> {
     /// The method writes the index to the file. Thus it must be called when
     /// you are done appening objects.
     pub fn finalize(&mut self) -> Result<(), ArchiveError> {
+        #[cfg(routinator_verif)]
+        crate::verif::fs_point("append.finalize", Path::new(""));
         // Write the index.
         self.file.seek(SeekFrom::Start(
             usize_to_u64(MAGIC_SIZE) + ArchiveMeta::size()
@@ -1341,6 +1343,8 @@ impl Storage {
         start: u64,
         op: impl FnOnce(&mut StorageWrite) -> Result<T, ArchiveError>
     ) -> Result<T, ArchiveError> {
+        #[cfg(routinator_verif)]
+        crate::verif::fs_point("storage.write.begin", Path::new(""));
         let mut write = if self.size == start {
             StorageWrite::new_append(self)?
         }
@@ -1356,6 +1360,8 @@ impl Storage {
 
     /// Sets the storage to the given length.
     pub fn set_len(&mut self, len: u64) -> Result<(), ArchiveError> {
+        #[cfg(routinator_verif)]
+        crate::verif::fs_point("storage.set_len", Path::new(""));
         self.file.lock().set_len(len)?;
         self.mmap()?;
         Ok(())
@@ -1620,6 +1626,8 @@ impl<'a> StorageWrite<'a> {
     pub fn write(
         &mut self, data: &[u8]
     ) -> Result<(), ArchiveError> {
+        #[cfg(routinator_verif)]
+        crate::verif::fs_point("storage.write.data", Path::new(""));
         match self.0 {
             #[cfg(unix)]
             WriteInner::Mmap { ref mut mmap, ref mut pos } => {
